@@ -404,121 +404,127 @@ Fixpoint bind (shorts : list sc) (vals : list leaf) (cache : list entry) (store 
       end
   end.
 
-Record lstate := mkSt {
-  cache : list entry;
-  store : list sc;
-  cur : option Z;
-  last_end : nat;
-  fresh : Z
+(* The loop of _expand_shortcuts walks new_vals_cache.values() (same order as new_vals) and rewrites the
+   entry of the position it is at, or - in try_reverse_expansion - of positions just before it.  The model keeps
+   the dict as a zipper: [zdone] = the entries before position i, most recent first (so that the backwards walk
+   of try_reverse_expansion is a walk from the head), the remaining entries are the argument of [zloop]. *)
+Record zstate := mkZ {
+  zdone : list (entry * leaf);
+  zstore : list sc;
+  zcur : option Z;          (* "shortcut" *)
+  zlast : nat;              (* "last_end" *)
+  zfresh : Z
 }.
 
-(* try_reverse_expansion: for value in new_vals[i-1 : last_end : -1] *)
-Fixpoint rev_expand (fuel : nat) (k : nat) (stop : nat) (s : sc) (vals : list leaf)
-         (cache : list entry) : res (sc * list entry) :=
-  match fuel with
-  | O => Ok (s, cache)
-  | S f =>
-      if Nat.leb k stop then Ok (s, cache)
-      else
-        match nth_error vals k with
-        | None => Ok (s, cache)
-        | Some v =>
-            match consume s k v false false with
-            | Err e => Err e
-            | Ok (true, s') =>
-                let cache' := set_nth k (ESc (sid s)) cache in
-                match k with
-                | O => Ok (s', cache')
-                | S k' => rev_expand f k' stop s' vals cache'
-                end
-            | Ok (false, s') => Ok (s', set_nth k EVal cache)
-            end
-        end
-  end.
-
-(* check_for_orphan_jump *)
-Definition orphan (i : nat) (v : leaf) (st : lstate) : res lstate :=
-  match lval v, cur st with
-  | None, None =>
-      let s := fresh_jump (fresh st) in
-      match consume s i v true false with
+(* try_reverse_expansion: for value in new_vals[i-1 : last_end : -1]  ([budget] = number of positions in the slice,
+   [k] = the position of the head of [done]) *)
+Fixpoint zrev_expand (budget : nat) (k : nat) (s : sc) (done : list (entry * leaf))
+  : res (sc * list (entry * leaf)) :=
+  match budget, done with
+  | S b, (_, v) :: d' =>
+      match consume s k v false false with
       | Err e => Err e
-      | Ok (true, s') => Ok (mkSt (set_nth i (ESc (sid s)) (cache st)) (put_sc s' (store st))
-                                  (Some (sid s)) (last_end st) (fresh st + 1))
-      | Ok (false, s') => Ok (mkSt (cache st) (put_sc s' (store st)) (Some (sid s)) (last_end st) (fresh st + 1))
+      | Ok (true, s') =>
+          match zrev_expand b (Nat.pred k) s' d' with
+          | Err e => Err e
+          | Ok (s'', d'') => Ok (s'', (ESc (sid s), v) :: d'')
+          end
+      | Ok (false, s') => Ok (s', (EVal, v) :: d')
       end
-  | _, _ => Ok st
+  | _, _ => Ok (s, done)
   end.
 
-(* one iteration of the loop of _expand_shortcuts *)
-Definition step (vals : list leaf) (i : nat) (st : lstate) : res lstate :=
-  match nth_error (cache st) i, nth_error vals i with
-  | Some (ESc id), Some v =>
-      match find_sc id (store st) with
+(* check_for_orphan_jump; -> the entry of position i and the new state *)
+Definition zorphan (i : nat) (v : leaf) (e : entry) (st : zstate) : res (entry * zstate) :=
+  match lval v, zcur st with
+  | None, None =>
+      let s := fresh_jump (zfresh st) in
+      match consume s i v true false with
+      | Err er => Err er
+      | Ok (true, s') => Ok (ESc (sid s), mkZ (zdone st) (put_sc s' (zstore st)) (Some (sid s)) (zlast st) (zfresh st + 1))
+      | Ok (false, s') => Ok (e, mkZ (zdone st) (put_sc s' (zstore st)) (Some (sid s)) (zlast st) (zfresh st + 1))
+      end
+  | _, _ => Ok (e, st)
+  end.
+
+Definition zpush (e : entry) (v : leaf) (st : zstate) : zstate :=
+  mkZ ((e, v) :: zdone st) (zstore st) (zcur st) (zlast st) (zfresh st).
+
+(* one iteration of the loop of _expand_shortcuts, at position i = length (zdone st) *)
+Definition zstep (st : zstate) (ev : entry * leaf) : res zstate :=
+  let i := List.length (zdone st) in
+  let (e, v) := ev in
+  match e with
+  | ESc id =>
+      match find_sc id (zstore st) with
       | None => Err EBadReq
       | Some s =>
           (* shortcuts bumped up against each other *)
-          let le := match cur st with Some _ => Nat.pred i | None => last_end st end in
+          let le := match zcur st with Some _ => Nat.pred i | None => zlast st end in
           let flag := Nat.eqb i (S le) && negb (Nat.eqb le 0) in
           match consume s i v true flag with
-          | Err e => Err e
+          | Err er => Err er
           | Ok (true, s') =>
-              if Nat.ltb 1 i then
-                match rev_expand i (Nat.pred i) le s' vals (cache st) with
-                | Err e => Err e
-                | Ok (s'', cache') => Ok (mkSt cache' (put_sc s'' (store st)) (Some id) le (fresh st))
-                end
-              else Ok (mkSt (cache st) (put_sc s' (store st)) (Some id) le (fresh st))
+              match zrev_expand (if Nat.ltb 1 i then Nat.pred i - le else 0) (Nat.pred i) s' (zdone st) with
+              | Err er => Err er
+              | Ok (s'', done') => Ok (mkZ ((ESc id, v) :: done') (put_sc s'' (zstore st)) (Some id) le (zfresh st))
+              end
           | Ok (false, s') =>
-              Ok (mkSt (set_nth i EVal (cache st)) (put_sc s' (store st)) None le (fresh st))
+              Ok (mkZ ((EVal, v) :: zdone st) (put_sc s' (zstore st)) None le (zfresh st))
           end
       end
-  | Some EVal, Some v =>
-      match cur st with
+  | EVal =>
+      match zcur st with
       | Some id =>
-          match find_sc id (store st) with
+          match find_sc id (zstore st) with
           | None => Err EBadReq
           | Some s =>
-              let flag := Nat.eqb i (S (last_end st)) && negb (Nat.eqb (last_end st) 0) in
+              let flag := Nat.eqb i (S (zlast st)) && negb (Nat.eqb (zlast st) 0) in
               match consume s i v true flag with
-              | Err e => Err e
+              | Err er => Err er
               | Ok (true, s') =>
-                  Ok (mkSt (set_nth i (ESc id) (cache st)) (put_sc s' (store st)) (cur st) (last_end st) (fresh st))
+                  Ok (mkZ ((ESc id, v) :: zdone st) (put_sc s' (zstore st)) (zcur st) (zlast st) (zfresh st))
               | Ok (false, s') =>
-                  orphan i v (mkSt (cache st) (put_sc s' (store st)) None (Nat.pred i) (fresh st))
+                  match zorphan i v EVal (mkZ (zdone st) (put_sc s' (zstore st)) None (Nat.pred i) (zfresh st)) with
+                  | Err er => Err er
+                  | Ok (e', st') => Ok (zpush e' v st')
+                  end
               end
           end
-      | None => orphan i v st
+      | None =>
+          match zorphan i v EVal st with
+          | Err er => Err er
+          | Ok (e', st') => Ok (zpush e' v st')
+          end
       end
-  | _, _ => Err EBadReq
   end.
 
-Fixpoint loop (vals : list leaf) (i n : nat) (st : lstate) : res lstate :=
-  match n with
-  | O => Ok st
-  | S m => match step vals i st with
-           | Err e => Err e
-           | Ok st' => loop vals (S i) m st'
-           end
+Fixpoint zloop (todo : list (entry * leaf)) (st : zstate) : res zstate :=
+  match todo with
+  | [] => Ok st
+  | ev :: r => match zstep st ev with
+               | Err e => Err e
+               | Ok st' => zloop r st'
+               end
   end.
 
 Inductive lnode := NVal (l : leaf) | NSc (s : sc).
 Record listnode := mkList { lnodes : list lnode; lshorts : list sc }.
 
 (* the loop that rebuilds _nodes / _shortcuts from the cache; [lastsc] = id of _shortcuts[-1] *)
-Fixpoint collect (cache : list entry) (vals : list leaf) (store : list sc) (lastsc : option Z)
+Fixpoint collect (cache : list (entry * leaf)) (store : list sc) (lastsc : option Z)
   : list lnode * list sc :=
-  match cache, vals with
-  | EVal :: cr, v :: vr =>
-      let (ns, ss) := collect cr vr store lastsc in (NVal v :: ns, ss)
-  | ESc id :: cr, _ :: vr =>
+  match cache with
+  | (EVal, v) :: cr =>
+      let (ns, ss) := collect cr store lastsc in (NVal v :: ns, ss)
+  | (ESc id, _) :: cr =>
       let same := match lastsc with Some l => Z.eqb l id | None => false end in
-      if same then collect cr vr store lastsc
+      if same then collect cr store lastsc
       else match find_sc id store with
-           | Some s => let (ns, ss) := collect cr vr store (Some id) in (NSc s :: ns, s :: ss)
-           | None => collect cr vr store lastsc
+           | Some s => let (ns, ss) := collect cr store (Some id) in (NSc s :: ns, s :: ss)
+           | None => collect cr store lastsc
            end
-  | _, _ => ([], [])
+  | [] => ([], [])
   end.
 
 Definition is_orphan_jump (n : lnode) : bool :=
@@ -533,10 +539,10 @@ Definition update (shorts : list sc) (vals : list leaf) (fresh0 : Z) : res listn
   | [] => Ok (mkList [] shorts)
   | _ =>
       let (cache0, store0) := bind shorts vals (map (fun _ => EVal) vals) [] in
-      match loop vals 0 (List.length vals) (mkSt cache0 store0 None 0 fresh0) with
+      match zloop (combine cache0 vals) (mkZ [] store0 None 0 fresh0) with
       | Err e => Err e
       | Ok st =>
-          let (ns, ss) := collect (cache st) vals (store st) None in
+          let (ns, ss) := collect (rev (zdone st)) (zstore st) None in
           match rev ns with
           | last :: _ =>
               if is_orphan_jump last then Ok (mkList (removelast ns) (removelast ss))
@@ -807,6 +813,8 @@ Definition vclose (a b : val) : bool :=
   match a, b with
   | VQ x, VQ y => qclose x y
   | VJ, VJ => true
+  | VLog _ _ _ _, VQ _ => true      (* a logarithmic interpolant stays symbolic: its position is checked, its
+                                       number (log / pow in binary64) only by the harness on the real text *)
   | _, _ => false
   end.
 Fixpoint vlist_close (a b : list val) : bool :=
@@ -850,8 +858,14 @@ Definition recompress_ok (shorts : list sc) (vals : list leaf) (fresh0 : Z) : bo
      n  an interpolate holds fewer than two nodes (negative count)
      w  the count text carries blanks (the count has fewer digits than the count token it replaces)
      u  a leaf printed inside a shortcut (its first value) has no blank after it
-     m  a multiply does not hold exactly two nodes      z  its first value is zero
-     d  a repeat holds a value that is not isclose to its first value *)
+     m  a multiply does not hold exactly two nodes      z  its first value is zero (or a jump)
+     d  a repeat holds a value that is not isclose to its first value (repeat groups consume neighbour by
+        neighbour: isclose is not transitive), or starts with a jump
+     l  an interpolate holds a value that is not isclose to the interpolant between its first and last value
+        (same reason), an end that is a jump, or - nILOG - an end that is not positive
+     k  a jump shortcut holds a value
+   The codes d l k compare what the printed shortcut means ([expect_*], the manual's definition) with the values
+   of the nodes it stands for; the other codes are about how the text is cut into tokens. *)
 Definition body_of (t : string) : string := fst (span_body t).
 Definition rest_of (t : string) : string := snd (span_body t).
 Definition word_ok (t : string) : bool := negb (String.eqb (body_of t) "") && all_ws (rest_of t).
@@ -880,13 +894,34 @@ Definition endpad_diag (s : sc) (last_blank : bool) (is_last : bool) : string :=
   code (negb (all_ws (sendpad s))) "x" ++
   code (negb is_last && negb last_blank && negb (ends_blank (sendpad s))) "e".
 
-Definition all_close_first (ns : list leaf) : bool :=
+Definition expect_jump (ns : list leaf) : option (list val) := Some (repeat VJ (List.length ns)).
+Definition expect_repeat (ns : list leaf) : option (list val) :=
   match ns with
-  | [] => true
-  | f :: r => forallb (fun l => match lval f, lval l with
-                                | Some a, Some b => qclose a b
-                                | _, _ => false
-                                end) r
+  | f :: r => match lval f with
+              | Some q => Some (VQ q :: repeat (VQ q) (List.length r))
+              | None => None
+              end
+  | [] => None
+  end.
+Definition expect_interp (k : kind) (ns : list leaf) : option (list val) :=
+  match ns, last_leaf ns with
+  | f :: _ :: _, Some e =>
+      match lval f, lval e with
+      | Some a, Some b =>
+          let c := (List.length ns - 2)%nat in
+          match k with
+          | KL => if qpos a && qpos b then Some ([VQ a] +++ log_steps a b c 1 c +++ [VQ b]) else None
+          | _ => Some ([VQ a] +++ lin_steps a b c 1 c +++ [VQ b])
+          end
+      | _, _ => None
+      end
+  | _, _ => None
+  end.
+(* does the printed shortcut mean the values of its nodes? *)
+Definition sem_ok (e : option (list val)) (ns : list leaf) : bool :=
+  match e with
+  | Some l => vlist_close l (map leaf_val ns)
+  | None => false
   end.
 
 Definition sc_diag (s : sc) (leading : bool) (is_last : bool) : string :=
@@ -894,7 +929,8 @@ Definition sc_diag (s : sc) (leading : bool) (is_last : bool) : string :=
   match skind s with
   | KJ =>
       let omitted := (n =? 1)%Z && (Nat.eqb (sorig s) 0 || negb (has_char "1" (sotok s))) in
-      code (n =? 0)%Z "n" ++ count_diag s n omitted ++ endpad_diag s false is_last
+      code (n =? 0)%Z "n" ++ count_diag s n omitted ++
+      code (negb (sem_ok (expect_jump (snodes s)) (snodes s))) "k" ++ endpad_diag s false is_last
   | KR =>
       let extra := if leading then 0%Z else 1%Z in
       let c := (n - extra)%Z in
@@ -903,31 +939,41 @@ Definition sc_diag (s : sc) (leading : bool) (is_last : bool) : string :=
                                | Some l => inner_leaf_diag l
                                | None => "n" end) ++
       code (c <? 0)%Z "n" ++ count_diag s c omitted ++
-      code (negb (all_close_first (snodes s))) "d" ++ endpad_diag s false is_last
+      (if leading then "" else code (negb (sem_ok (expect_repeat (snodes s)) (snodes s))) "d") ++
+      endpad_diag s false is_last
   | KM =>
       (if leading then code (negb (n =? 1)%Z) "m"
        else code (negb (n =? 2)%Z) "m" ++
             match first_leaf (snodes s) with
             | Some l => inner_leaf_diag l ++
                         code (match lval l with Some q => qzero q | None => true end) "z"
-            | None => "" end) ++
+            | None => "" end ++
+            match last_leaf (snodes s) with
+            | Some l => code (match lval l with Some _ => false | None => true end) "v"
+            | None => "" end ++
+            code (Nat.eqb (sorig s) 0) "x") ++
       endpad_diag s false is_last
   | KI | KL =>
       let extra := if leading then 1%Z else 2%Z in
       let c := (n - extra)%Z in
       let omitted := (c =? 1)%Z && Nat.leb 2 (sorig s) && negb (has_char "1" (sotok s)) in
       let pad := if Nat.leb 3 (sorig s) then smidpad s else " " in
+      let rest := strip_digits (sotok s) in
+      let word := if Nat.ltb 0 (sorig s) && negb (String.eqb rest "") then rest
+                  else match skind s with KL => "ILOG" | _ => "I" end in
       code (c <? 0)%Z "n" ++
       (if leading then "" else match first_leaf (snodes s) with
                                | Some l => inner_leaf_diag l
                                | None => "" end) ++
       count_diag s c omitted ++
+      code (negb (cnt_txt_ok word)) "x" ++
       code (negb (all_ws pad && negb (String.eqb pad ""))) "x" ++
       match last_leaf (snodes s) with
       | Some e => (if String.eqb (ltxt e) "" then "v" else code (negb (word_ok (ltxt e))) "x") ++
                   endpad_diag s (ends_blank (ltxt e)) is_last
       | None => ""
-      end
+      end ++
+      (if leading then "" else code (negb (sem_ok (expect_interp (skind s) (snodes s)) (snodes s))) "l")
   end.
 
 Fixpoint nodes_diag (nodes : list lnode) (prev : option lnode) : list string :=
